@@ -32,5 +32,124 @@ package caldav
 //@   |   && (forall j :: 0 <= j && j < #i && cuid(cal, j) != "" ==> cuid(cal, j) == uid)
 
 //@ -- C16 / C08: iCalendar "date with UTC time" (RFC 5545 section 3.3.5), any zone in, UTC to the second out (T-time)
+//@ func caldav.(*dateWithUTCTime).MarshalText(t) (b, err)
+//@   requires R1: t != nil
+//@   ensures M1: err == nil && string(b) == timeFormat(dateWithUTCTimeLayout, ns(*t))
+//@ func caldav.(*dateWithUTCTime).UnmarshalText(t, b) (err)
+//@   requires R1: t != nil
+//@   assigns HC_caldav_dateWithUTCTime
+//@   ensures U1: err == nil <==> timeParseOk(dateWithUTCTimeLayout, string(b))
+//@   ensures U2: err == nil ==> ns(*t) == timeParseNs(dateWithUTCTimeLayout, string(b))
+//@   ensures U3: err != nil ==> *t == old(*t) && httpCode(err) == -1 && !hostPath(err)
+//@   ensures U4: forall r *dateWithUTCTime :: r != t ==> *r == old(*r)
 //@ func caldav.verifDateWithUTCTimeRoundTrip(t) (r, err)
 //@   ensures RT: err == nil && r.ns == truncSec(t.ns)
+
+//@ -- ---------------------------------------------------------------------------------------
+//@ -- C06: RFC 4791 section 9.7 - 9.9 filter semantics, written from the RFC
+//@ spec locOf(t time.Time) *time.Location = smt("*time.Location", "(+ 1 (t_loc $0))", t)
+//@ spec hasRange(s time.Time, e time.Time) bool = !isZeroTime(s) || !isZeroTime(e)
+//@ spec textHolds(t TextMatch, v string) bool = contains(v, t.Text) != t.NegateCondition
+//@ -- 9.9: [ds, de) against [s, e), e unbounded when zero; zero-length events use s <= ds
+//@ spec overlaps(s time.Time, e time.Time, ds time.Time, de time.Time) bool = (isZeroTime(e) || ns(e) > ns(ds))
+//@   | && (ns(de) > ns(ds) ? ns(s) < ns(de) : ns(s) <= ns(ds))
+//@ -- recurring components: pinned to the implementation's use of rrule (instances starting in [s, e], see evidence)
+//@ spec compInRange(s time.Time, e time.Time, c *ical.Component) bool = recurSet(c, locOf(s)) != nil
+//@   | ? len(rruleBetween(recurSet(c, locOf(s)), s, e, true)) > 0
+//@   | : (c.Name == "VEVENT" && overlaps(s, e, evStart(c, locOf(s)), evEnd(c, locOf(e))))
+//@ spec compRangeErr(s time.Time, e time.Time, c *ical.Component) bool = recurSetErr(c, locOf(s)) != nil
+//@   | || (recurSet(c, locOf(s)) == nil && c.Name == "VEVENT" && (evStartErr(c, locOf(s)) != nil || evEndErr(c, locOf(e)) != nil))
+//@ spec propInRange(s time.Time, e time.Time, p *ical.Prop) bool = ns(s) <= ns(propDateTime(p, locOf(s))) && (isZeroTime(e) || ns(propDateTime(p, locOf(s))) < ns(e))
+//@ spec paramHolds(f ParamFilter, p *ical.Prop) bool = paramsGet(p.Params, f.Name) == ""
+//@   | ? f.IsNotDefined
+//@   | : (!f.IsNotDefined && (f.TextMatch != nil ==> textHolds(*f.TextMatch, paramsGet(p.Params, f.Name))))
+//@ spec opaque propHolds(f PropFilter, c *ical.Component) bool = propsGet(c.Props, f.Name) == nil
+//@   | ? f.IsNotDefined
+//@   | : (!f.IsNotDefined
+//@   |    && (forall k :: 0 <= k && k < len(f.ParamFilter) ==> paramHolds(f.ParamFilter[k], propsGet(c.Props, f.Name)))
+//@   |    && (hasRange(f.Start, f.End) ? propInRange(f.Start, f.End, propsGet(c.Props, f.Name))
+//@   |        : (f.TextMatch != nil ==> textHolds(*f.TextMatch, propsGet(c.Props, f.Name).Value))))
+//@ -- a property filter can only fail with an error when its time range has to be evaluated
+//@ spec propErr(f PropFilter, c *ical.Component) bool = propsGet(c.Props, f.Name) != nil && !f.IsNotDefined && hasRange(f.Start, f.End)
+//@   | && (forall k :: 0 <= k && k < len(f.ParamFilter) ==> paramHolds(f.ParamFilter[k], propsGet(c.Props, f.Name)))
+//@   | && propDateTimeErr(propsGet(c.Props, f.Name), locOf(f.Start)) != nil
+//@ spec holdsOn(f CompFilter, c *ical.Component) bool = c.Name == f.Name
+//@   | && (hasRange(f.Start, f.End) ==> compInRange(f.Start, f.End, c))
+//@   | && (forall k :: 0 <= k && k < len(f.Comps) ==> existsIn(f.Comps[k], c))
+//@   | && (forall k :: 0 <= k && k < len(f.Props) ==> propHolds(f.Props[k], c))
+//@ spec existsIn(f CompFilter, parent *ical.Component) bool = f.IsNotDefined
+//@   | ? !(exists j :: 0 <= j && j < len(parent.Children) && parent.Children[j].Name == f.Name)
+//@   | : (exists j :: 0 <= j && j < len(parent.Children) && holdsOn(f, parent.Children[j]))
+//@ -- well-formed calendar data: no nil component below c (nesting depth bounded by the variant)
+//@ spec wfComp(c *ical.Component) bool = c != nil && (forall j :: 0 <= j && j < len(c.Children) ==> c.Children[j] != nil && wfComp(c.Children[j]))
+
+//@ func caldav.matchTextMatch(txt, value) (ok)
+//@   assigns nothing
+//@   ensures X1: ok <==> textHolds(txt, value)
+//@ func caldav.matchParamFilter(filter, field) (ok)
+//@   requires R1: field != nil
+//@   assigns nothing
+//@   ensures Q1: ok <==> paramHolds(filter, field)
+//@ func caldav.matchPropTimeRange(start, end, field) (ok, err)
+//@   requires R1: field != nil
+//@   assigns nothing
+//@   ensures R1e: err == propDateTimeErr(field, locOf(start))
+//@   ensures R2e: err == nil ==> (ok <==> propInRange(start, end, field))
+//@   ensures R3e: err != nil ==> !ok
+//@ func caldav.matchPropFilter(filter, comp) (ok, err)
+//@   reveal propHolds
+//@   requires R1: comp != nil
+//@   requires R2: !(hasRange(filter.Start, filter.End) && filter.TextMatch != nil)
+//@   assigns nothing
+//@   ensures P1: err == nil ==> (ok <==> propHolds(filter, comp))
+//@   ensures P2: err != nil <==> propErr(filter, comp)
+//@   ensures P3: err != nil ==> !ok
+//@   loop 1 invariant I1: forall k :: 0 <= k && k < #i ==> paramHolds(filter.ParamFilter[k], field)
+//@ func caldav.matchCompTimeRange(start, end, comp) (ok, err)
+//@   requires R1: comp != nil
+//@   assigns nothing
+//@   ensures T1: err != nil <==> compRangeErr(start, end, comp)
+//@   ensures T2: err == nil ==> (ok <==> compInRange(start, end, comp))
+//@   ensures T3: err != nil ==> !ok
+//@ -- RFC 4791 DTD: a prop-filter carries a time-range or a text-match, not both
+//@ spec wfFilter(f CompFilter) bool = (forall k :: 0 <= k && k < len(f.Props) ==> !(hasRange(f.Props[k].Start, f.Props[k].End) && f.Props[k].TextMatch != nil))
+//@   | && (forall k :: 0 <= k && k < len(f.Comps) ==> wfFilter(f.Comps[k]))
+//@ func caldav.match(filter, comp) (ok, err)
+//@   requires R1: wfComp(comp)
+//@   requires R2: wfFilter(filter)
+//@   assigns nothing
+//@   ensures H1: err == nil ==> (ok <==> holdsOn(filter, comp))
+//@   ensures H3: err != nil ==> !ok
+//@   loop 1 invariant I1: forall k :: 0 <= k && k < #i ==> existsIn(filter.Comps[k], comp)
+//@   loop 2 invariant I2: (forall k :: 0 <= k && k < len(filter.Comps) ==> existsIn(filter.Comps[k], comp)) && (forall k :: 0 <= k && k < #i ==> propHolds(filter.Props[k], comp))
+//@ func caldav.matchCompFilter(filter, comp) (ok, err)
+//@   requires R1: wfComp(comp)
+//@   requires R2: wfFilter(filter)
+//@   assigns nothing
+//@   ensures X1: err == nil ==> (ok <==> existsIn(filter, comp))
+//@   ensures X3: err != nil ==> !ok
+//@   loop 1 invariant I1: forall j :: 0 <= j && j < #i ==> comp.Children[j].Name != filter.Name
+//@   loop 2 invariant I2: forall j :: 0 <= j && j < #i ==> !holdsOn(filter, comp.Children[j])
+//@ spec rootMatches(f CompFilter, root *ical.Component) bool = f.IsNotDefined ? root.Name != f.Name : holdsOn(f, root)
+//@ func caldav.Match(query, co) (matched, err)
+//@   requires R1: co != nil && co.Data != nil && wfComp(co.Data.Component)
+//@   requires R2: wfFilter(query)
+//@   assigns nothing
+//@   ensures M1: err == nil ==> (matched <==> rootMatches(query, co.Data.Component))
+//@   ensures M3: err != nil ==> !matched
+//@ -- Filter = exactly the matching objects, in input order, unmodified
+//@ spec opaque objMatches(q *CalendarQuery, co CalendarObject) bool = rootMatches(q.CompFilter, co.Data.Component)
+//@ spec ccnt(q *CalendarQuery, cos []CalendarObject, i int) int = i <= 0 ? 0 : ccnt(q, cos, i - 1) + (objMatches(q, cos[i - 1]) ? 1 : 0)
+//@ func caldav.Filter(query, cos) (result, err)
+//@   reveal objMatches
+//@   requires R1: query != nil ==> wfFilter(query.CompFilter) && (forall j :: 0 <= j && j < len(cos) ==> cos[j].Data != nil && wfComp(cos[j].Data.Component))
+//@   assigns nothing
+//@   ensures F0: query == nil ==> result == cos && err == nil
+//@   ensures F1: query != nil && err == nil ==> len(result) == old(ccnt(query, cos, len(cos)))
+//@   ensures F2: query != nil && err == nil ==> (forall j :: 0 <= j && j < len(cos) && old(objMatches(query, cos[j])) ==> result[old(ccnt(query, cos, j))] == old(cos[j]))
+//@   ensures F3: err != nil ==> result == nil && query != nil
+//@   loop 1 invariant J0: query != nil && (cap(out) == 0 || fresh(out))
+//@   loop 1 invariant J1: let k : #i in len(out) == old(ccnt(query, cos, k))
+//@   loop 1 invariant J2: let k : #i in forall j :: 0 <= j && j < k && old(objMatches(query, cos[j])) ==> out[old(ccnt(query, cos, j))] == old(cos[j])
+//@   loop 1 invariant J5a: let k : #i in forall j :: 0 <= j && j <= k ==> 0 <= old(ccnt(query, cos, j)) && old(ccnt(query, cos, j)) <= old(ccnt(query, cos, k))
+//@   loop 1 invariant J5b: let k : #i in forall j :: 0 <= j && j < k && old(objMatches(query, cos[j])) ==> old(ccnt(query, cos, j)) < old(ccnt(query, cos, k))
